@@ -22,7 +22,7 @@ PROPS["C14"] = {
              "random envelope type / truncated / random / empty, optional truncation of the whole - fed to all 15 Unmarshal* "
              "functions and compared with a reference decoder written from documentation/envelope_protocol.md; (roundtrip) a "
              "reflectively generated value of each of the 15 envelope types through Marshal*/Unmarshal*; (crc) the same value with "
-             "the optional CRC-32C header and one flipped bit. Server-level unit: the same bytes through natsToProtoMessage. "
+             "the optional CRC-32C header and one flipped bit. Server-level units: the same bytes through natsToProtoMessage, and (C14e) 1-10 of them published to the NATS subject of a stream on a started server, followed by an AckPolicy-ALL publish, a subscription that must deliver every payload as predicted, and a metadata fetch (one publish envelope in six carries an ack inbox that is not a NATS subject: line breaks, blanks, empty tokens, NUL). "
              "Non-trivial = a bytes case that starts with the correct magic+version and is not a plain valid minimal-header "
              "envelope, or any roundtrip/crc case; distinct = SHA-1 of the case encoding."),
     "assumptions": TRUST + ["protobuf (golang/protobuf + generated gogo code) decoding of a payload is trusted as the reference for payload contents",
@@ -46,12 +46,12 @@ PROPS["C01"] = {
     "level_text": ("generated operation sequences (append batches, replicated message-set appends, truncations at selected offsets, close/reopen with a "
                    "different segment size, HW moves, reader probes) on a real on-disk commit log, compared after EVERY step with an in-memory "
                    "reference model: returned offsets, Newest/Oldest/HW, a full read-back with byte-equal key/value/headers/timestamp/epoch, "
-                   "committed and uncommitted readers from selected starts, long-lived committed readers that stay parked across later appends, rolls and HW moves (created at, below or beyond the HW, also on an empty log) and must continue without a gap or duplicate, segment files and their sizes, epoch-cache invariants"),
+                   "committed and uncommitted readers from selected starts, long-lived committed readers that stay parked across later appends, rolls and HW moves (created at, below or beyond the HW, also on an empty log) and must continue without a gap or duplicate, an uncommitted reader blocked at the log end while the active segment is rolled without a write (what segment.max.age does) and messages are appended afterwards, segment files and their sizes, epoch-cache invariants"),
     "level_note": "sequential histories only (concurrency is C03); trusts the file system; timestamps/epochs non-decreasing and reader starts >= 0 as every caller produces them; truncation never below the HW",
     "rule": ("rapid draws max segment bytes from {1,64,150,300,1024,65536,default} and 1-40 (thorough 1-120) ops: append(1-8 msgs; key nil/empty/short/300B, "
              "value nil/empty/5B-2KiB/70KiB, headers nil/empty/1-3 with empty/short/1100B values, equal or increasing timestamps, epoch bumps), appendset "
              "(1-6 msgs encoded as a follower receives them), truncate(class: any/inside batch/segment base+-1/batch start/beyond end), reopen(optionally new "
-             "segment size), sethw, probe(start class, committed or not), newreader/read (parked committed readers; those positioned before a truncation point stay parked across the truncation, the others and all readers at a reopen are dropped). Non-trivial = the case rolled at least one segment AND contains one of: truncate "
+             "segment size), sethw, probe(start class, committed or not), newreader/read (parked committed readers; those positioned before a truncation point stay parked across the truncation, the others and all readers at a reopen are dropped), parksplit(uncommitted reader at the newest offset, roll of the active segment, append of 1-3 msgs: the reader must deliver them in order within 20 s). Non-trivial = the case rolled at least one segment AND contains one of: truncate "
              "strictly inside a batch, truncate at a segment base, reopen after a truncate, message-set append that rolled, probe starting at/inside a "
              "non-first segment. distinct = SHA-1 of the case encoding."),
     "assumptions": TRUST + ["process keeps running (crashes are C05)", "no compaction/retention in this flavour (C08/C09)"],
@@ -180,7 +180,7 @@ PROPS["C12"] = {
     "level": "exploration",
     "technique": "model-based stateful property testing (rapid) + bounded-exhaustive enumeration of short histories; invariant over assignments + determinism between two replicas",
     "level_text": 'histories of join/leave/expire/stream-delete/stream-create over one consumer group (<=5 members, <=3 streams, 1-5 partitions) on the real consumerGroup object; after every step: every partition of every subscribed stream has exactly one owner who subscribed to it, nobody holds foreign or non-existent partitions, single-stream groups differ by <=1, a second object fed the same history (optionally rebuilt from a snapshot of its members in another order) hands out identical assignments, a stale epoch is refused. Unit C12exh runs EVERY sequence of up to 5 (thorough: 6) operations over a 14-letter alphabet (join of m0-m2 to {s0},{s1},{s0,s1}; leave of m0-m2; delete and re-create of s0; s0 has 2 then 3 partitions, s1 has 3) through the same executor and oracle',
-    "level_note": 'object level (the metadata layer around it is exercised by C06); timers set to 1h so expiry is a generated operation',
+    "level_note": 'object level (the metadata layer around it is exercised by C06); timers set to 1h so expiry is a generated operation; while the open finding C12-snapshot-restore-changes-assignments is excluded, only the comparison of the rebuilt object with the live one is skipped: the rebuild is still performed and the rebuilt object is held to the assignment invariants (signature prefix C12/restored-group/)',
     "rule": 'rapid draws 1-25 operations with preconditions resolved at run time. Non-trivial = >=3 members with overlapping subscriptions and a later leave/expire/stream delete. C12exh: 579,194 sequences (quick) / 8,108,730 (thorough), complete for its alphabet and length bound (coverage.exhaustive_units).',
     "assumptions": TRUST,
     "units": [
@@ -297,11 +297,11 @@ PROPS["C02"] = {
     "technique": "model-based stateful property testing (rapid): fault sequences over a 3-replica mini-cluster (real replication/truncation/commit code, harness-driven metadata log), history invariants after every step",
     "level_text": ("fault sequences over a 3-replica partition on three bare servers sharing one in-process NATS server: publish (LEADER/ALL policy), settle, hold/release replication per replica, "
                    "crash (with a current or stale HW checkpoint) and restart of any replica with log reconciliation, ISR shrink/expand (also while behind), elections from the ISR (followers or leader applying the change first, "
-                   "old leader crashed or deposed alive), servers that lag in applying metadata (a leader that has not learned it was replaced keeps accepting publishes and serving replication), six directed templates (double failovers, an empty term, a replica away across a failover that is elected later, a deposed-but-alive leader answering requests meant for its successor, a leader two leader changes behind, a follower that keeps fetching with an old leader epoch); replication, truncation, leader-offset requests, epoch caches and commit are the real code, the harness plays the Raft log through the real Server.apply. "
+                   "old leader crashed or deposed alive), servers that lag in applying metadata (a leader that has not learned it was replaced keeps accepting publishes and serving replication), seven directed templates (double failovers, an empty term, a replica away across a failover that is elected later, a deposed-but-alive leader answering requests meant for its successor, a leader two leader changes behind, a follower that keeps fetching with an old leader epoch); replication, truncation, leader-offset requests, epoch caches and commit are the real code, the harness plays the Raft log through the real Server.apply. "
                    "After every step: each replica's log is contiguous with non-decreasing epochs, HW never moves back within an incarnation, any two replicas agree on every offset at or below both HWs, "
                    "every ALL-acknowledged message is served unchanged at its offset by every later leader, no offset is acknowledged for two messages. Unit C02c: a started 3-server cluster in which elections, ISR shrinks and expansions are decided by the real code (follower reports, controller quorum, replicator lag detection); the harness publishes (LEADER/ALL), stops the partition leader or a follower (up to three times per history), waits and starts it again; same invariants after every step and at quiescence (all replicas identical up to HW = end)"),
     "level_note": "metadata operations are delivered by the harness, not by hashicorp/raft (elections always pick from the recorded ISR, as the controller does); one known finding (HW-truncation fallback, issue #38) is excluded by construction and counted: a follower never restarts while no leader is reachable, and followers never apply a leader change before the new leader does; in C02c, where the real Raft decides the order, a case is excluded (and counted) as soon as a server logs the HW-truncation fallback",
-    "rule": "rapid draws 4-30 steps or one of six directed templates. Non-trivial = at least one leader change after a committed publish; labels count two leader changes, stale HW checkpoints, rejoin with an uncommitted tail, leaders deposed alive, expands while behind. C02c: 5-30 operations, 12 histories in quick; non-trivial = at least one server was stopped after an ALL-acknowledged publish and the case was not excluded.",
+    "rule": "rapid draws 4-30 steps or one of seven directed templates. Non-trivial = at least one leader change after a committed publish; labels count two leader changes, stale HW checkpoints, rejoin with an uncommitted tail, leaders deposed alive, expands while behind. C02c: 5-30 operations, 12 histories in quick; non-trivial = at least one server was stopped after an ALL-acknowledged publish and the case was not excluded.",
     "assumptions": TRUST,
     "units": [
         {"name": "C02", "pkg": "server", "test": "TestVerifC02",
